@@ -373,3 +373,76 @@ Proof.
        destruct (s_grow_loop f a b (S lvl) root1) as [lvl' n'];
        destruct IH as (IH1 & IH2 & IH3 & IH4); split; [exact IH1|repeat split; lia]).
 Qed.
+
+(* ---------- segments and histories ---------- *)
+Definition seg_ok (K : Z) (s : segment) : Prop :=
+  match s_root s with None => True | Some (lvl, n) => node_ok K lvl n end.
+
+(* a write inside the epoch block K, non-empty *)
+Definition valid_range (K a b : Z) : Prop := a < b /\ K * pow10 8 <= a /\ b <= (K + 1) * pow10 8.
+Definition valid_write (K : Z) (w : write) : Prop := valid_range K (w_a w) (w_b w) /\ 0 <= w_beta w.
+
+Lemma s_grow_ok_holds K a b s : valid_range K a b -> seg_ok K s ->
+  match s_root (s_grow a b s) with
+  | Some (lvl, n) => node_ok K lvl n /\ sn_time n <= a /\ b <= sn_time n + pow10 lvl
+  | None => False
+  end.
+Proof.
+  intros (Hab & Ha & Hb) Hs. unfold s_grow, seg_ok in *.
+  destruct (s_root s) as [[lvl n]|]; cbn [s_root].
+  - destruct Hs as (Hl & Hwf & Htwo & Hb1 & Hb2). pose proof (pow10_pos lvl).
+    pose proof (grow_loop_ok K (Z.min a (sn_time n)) (Z.max b (sn_time n + pow10 lvl))
+                  ltac:(lia) ltac:(lia) ltac:(lia) (max_level - lvl)%nat lvl n eq_refl
+                  (conj Hl (conj Hwf (conj Htwo (conj Hb1 Hb2))))) as G.
+    destruct (s_grow_loop _ _ _ lvl n) as [lvl' n']. destruct G as (G1 & G2 & G3 & _).
+    split; [exact G1|lia].
+  - assert (Hn : node_ok K 0 (new_node a 0)).
+    { split; [unfold max_level; lia|]. split; [apply wf_new_node; change (pow10 0) with 1; apply Z.mod_1_r|].
+      split; [apply two_new_node|]. unfold in_blk. cbn [new_node sn_time]. change (pow10 0) with 1. lia. }
+    pose proof (grow_loop_ok K a b Hab Ha Hb max_level 0%nat (new_node a 0) eq_refl Hn) as G.
+    destruct (s_grow_loop _ _ _ _ _) as [lvl' n']. destruct G as (G1 & G2 & G3 & _).
+    split; [exact G1|lia].
+Qed.
+
+Lemma s_put_ok K a b smp s : valid_range K a b -> seg_ok K s -> seg_ok K (fst (s_put a b smp s)).
+Proof.
+  intros Hv Hs. pose proof (s_grow_ok_holds K a b s Hv Hs) as G. unfold s_put.
+  destruct (s_root (s_grow a b s)) as [[lvl n]|]; [|contradiction].
+  destruct G as ((Hl & Hwf & Htwo & Hb1 & Hb2) & _).
+  pose proof (put_node_wf lvl a b smp n Hwf). pose proof (put_node_two lvl a b smp n Htwo).
+  pose proof (put_node_time lvl a b smp n).
+  destruct (s_put_node lvl a b smp n) as [n' cbs]. cbn [fst] in *.
+  unfold seg_ok. cbn [s_root]. split; [exact Hl|]. split; [assumption|]. split; [assumption|].
+  unfold in_blk. lia.
+Qed.
+
+Lemma put_step_fst sE w : fst (put_step sE w) = fst (s_put (w_a w) (w_b w) (w_smp w) (fst sE)).
+Proof. unfold put_step. destruct (s_put _ _ _ _). reflexivity. Qed.
+
+Lemma run_ok K ws : Forall (valid_write K) ws ->
+  forall sE, seg_ok K (fst sE) -> seg_ok K (fst (fold_left put_step ws sE)).
+Proof.
+  induction 1 as [|w ws Hw _ IH]; intros sE Hs; cbn; [exact Hs|].
+  apply IH. rewrite put_step_fst. apply s_put_ok; [apply Hw|exact Hs].
+Qed.
+
+Lemma run_writes_ok K ws : Forall (valid_write K) ws -> seg_ok K (fst (run_writes ws)).
+Proof. intros H. apply run_ok; [exact H|exact I]. Qed.
+
+(* reflection of I_two into the boolean of the model *)
+Lemma two_twob : forall lvl n, two lvl n -> sn_twob lvl n = true.
+Proof.
+  induction lvl as [|l IH]; intros [t p s w ch] [H1 H2]; cbn [sn_twob].
+  - destruct (count_some ch <? 2)%nat eqn:E; cbn; [reflexivity|]. rewrite H1 by lia. reflexivity.
+  - apply andb_true_intro. split.
+    + destruct (count_some ch <? 2)%nat eqn:E; cbn; [reflexivity|]. rewrite H1 by lia. reflexivity.
+    + apply forallb_forall. intros o Ho. unfold oall in H2. rewrite Forall_forall in H2.
+      specialize (H2 o Ho). destruct o; [apply IH; exact H2|reflexivity].
+Qed.
+
+Theorem two_children_present K ws : Forall (valid_write K) ws -> s_twob (fst (run_writes ws)) = true.
+Proof.
+  intros H. pose proof (run_writes_ok K ws H) as G. unfold seg_ok, s_twob in *.
+  destruct (s_root (fst (run_writes ws))) as [[lvl n]|]; [|reflexivity].
+  apply two_twob. apply G.
+Qed.
